@@ -37,6 +37,31 @@ Update-builds over the 3 synthetic sources, each history in ONE process
 have the standard errors of ITS source's data (or none when the source has
 none), afterwards the sources too, and GroupLibrary(scheme) given nothing must
 carry no uncertainty data.
+
+Fifth wave (domains/w5_c20.py): (e) the COUNT of the out-of-basis descriptor
+over a value alphabet of 15 spellings - 1, -2, 0.217, 1e-12, 1e12, numpy 3,
+True and eight presentations of zero (0, 0.0, -0.0, False, numpy int64 /
+float64 / float32 zeros, numpy -0.0) - at every (mapping, out-of-basis
+descriptor, position) of the out-of-basis family: an error whatever the count;
+the same eight zeros as an explicit entry for an IN-basis descriptor (first /
+last position) of every 1-3 subset mapping of the 5-descriptor sub-basis: the
+standard errors must not notice it; (f) RANGES: library files whose three
+groups are letters of {H+S+Cp table, H+S only} x group ranges (8 letters; all
+3 alike and every mixture over a 3-letter sub-alphabet, thorough every mixture
+with a non-empty common range) x 4 ranges of the RMSE correlation, 5 mappings
+x 15 temperatures from 100 K to 1500 K x 3 getters - wherever the library's
+RMSE correlation gives a value the standard error is |value| sqrt(x'Mx), inside
+or outside the estimate's own validity range; and all histories of <= 2
+(thorough 3) set_range() calls on the ESTIMATE over 7 arguments x {before,
+after} the first standard-error call, observed after every step; (g) the
+library's RMSE correlation UPDATED IN PLACE between standard-error calls: on a
+library object of its own per history, two estimates made first, then every
+history of <= 3 steps over {observe at 298.15 K, observe at 500 K, update()
+with one of 5 pieces (8 at thorough; <= 2 steps over all 8 for the two other
+synthetic libraries; one 24-step walk through all 8 pieces for each shipped
+library)}, at the end both estimates and two new ones over the temperature
+grid against the correlation as it is now, and at T_ref against the H / S
+number the last accepted piece brought.
 """
 import itertools
 import json
@@ -55,6 +80,7 @@ from ..domains import estimates as E
 from ..domains import libs
 from ..domains import w3_c20 as W
 from ..domains import w4_c20 as W4
+from ..domains import w5_c20 as W5
 
 LEVEL = 'exploration'
 BOUND = {t: '3 shipped + 3 synthetic libraries (one with an integer-valued matrix); all unit vectors x 3 counts; all '
@@ -78,12 +104,28 @@ BOUND = {t: '3 shipped + 3 synthetic libraries (one with an integer-valued matri
             'sources, fresh Load only for the 3 synthetic ones) + all '
             'histories of 3 builds over %s, every library made so far observed '
             'after every build (2 mappings x 3 getters at 500 K), sources and a '
-            'library constructed from nothing observed at the end' % (
+            'library constructed from nothing observed at the end; fifth wave: '
+            'count of the out-of-basis descriptor over 15 spellings (8 of them '
+            'zeros) at every (mapping, descriptor, position) of the '
+            'out-of-basis family; 8 zero spellings as an explicit in-basis '
+            'entry (first / last position) x all 1-3 subsets of the '
+            '5-descriptor sub-basis (6 libraries); %s range library files '
+            '(group shape x group range letters x 4 RMSE ranges) x 5 mappings x '
+            '15 temperatures x 3 getters; set_range() on the estimate: all '
+            'histories of <= %s calls over 7 arguments x {before, after} the '
+            'first standard-error call (one call: all 1-3 subset mappings; '
+            'more: %s) x 6 libraries; RMSE correlation updated in place: syn3 '
+            'all histories of <= 3 steps over %s, syn2 / synint <= 2 steps '
+            'over 10 ops, each shipped library one 24-step walk%s, a library '
+            'object of its own per history' % ((
                 ('one 3-descriptor mapping', '{default, explicit} x 3 synthetic '
                  'sources (216)') if t == 'quick' else
                 ('a unit, a pair and a 3-descriptor mapping', '{default, '
                  'explicit} x 3 synthetic sources and over {default, explicit, '
-                 'ctor} x 6 sources (5832)'))
+                 'ctor} x 6 sources (5832)')) + (
+                ('128', '2', 'one mapping', '7 ops (399)', '') if t == 'quick' else
+                ('1448', '3', 'a unit, a pair, a triple', '10 ops (1110)',
+                 ' + 16 two-step histories')))
             for t in ('quick', 'thorough')}
 RULE = ('each mapping is estimated and the three standard-error getters are '
         'compared with |RMSE_X(T)| * sqrt(x\'Mx), x\'Mx summed in pure Python '
@@ -96,7 +138,10 @@ RULE = ('each mapping is estimated and the three standard-error getters are '
         'quadratic form of the scaled counts and against |k| x the unscaled '
         'standard error, relative tolerance) and every observation of a '
         'hand-built library (one mapping on one library at one point of a '
-        'history) is non-trivial')
+        'history) is non-trivial; fifth wave: every out-of-basis count, every '
+        'zero entry, every (range library file, mapping), every set_range '
+        'history and every step and final observation of an RMSE-update '
+        'history is non-trivial')
 ASSUMPTIONS = ['the basis order and matrix are read from uq.yaml / the library '
                'file with PyYAML by the harness itself',
                'for the synthetic library files the harness writes the '
@@ -113,7 +158,17 @@ ASSUMPTIONS = ['the basis order and matrix are read from uq.yaml / the library '
                'uncertainty data is read from the files by the harness',
                'the hand-built histories of one shard share one child '
                'interpreter; once a library constructed from nothing stops '
-               'being empty, later witnesses carry the history that did it']
+               'being empty, later witnesses carry the history that did it',
+               'range family: the value of the library\'s RMSE correlation at T '
+               'is asked from the loaded library (as everywhere else); where it '
+               'raises, the standard error is tallied, not judged',
+               'RMSE-update family: judged against the library\'s RMSE '
+               'correlation as it is at the time of the call, and at T_ref '
+               'against the harness\'s own number for the H / S value of the '
+               'last accepted piece; only in-place updates of the object the '
+               'library holds are enumerated (not its replacement by another '
+               'object); each history has a library object of its own, so '
+               'the witness is the history']
 MANIFEST = dict(
     technique='exhaustive enumeration of count vectors over the uncertainty '
               'basis (all key orders, scalings, out-of-basis insertions) vs a '
@@ -136,7 +191,14 @@ MANIFEST = dict(
          'the synthetic sources); each must have the standard errors of its '
          'own source, a library made from a source without uncertainty data '
          'must give none, and a library constructed from nothing must carry '
-         'none.',
+         'none. The out-of-basis descriptor is given 15 counts, eight of '
+         'them spellings of zero, and must raise every time; explicit zero '
+         'entries of in-basis descriptors must change nothing. Library files '
+         'with group ranges narrower / wider than the RMSE correlation\'s, and '
+         'set_range() histories on the estimate: the standard error exists '
+         'wherever the RMSE correlation does. The library\'s RMSE correlation '
+         'is updated in place between calls on an existing estimate: every '
+         'later call must follow it.',
     note='Mappings with more than three non-zero counts are not enumerated; '
          'common factors outside 1e-12 .. 1e12 are not enumerated '
          '(far from where k^2 x\'Mx would leave the double range).',
@@ -191,6 +253,31 @@ def _write_and_load(basis, mat, place='inline'):
         shutil.rmtree(d, ignore_errors=True)
 
 
+def _write_and_load_text(text):
+    """Fifth wave: a library file given as text (written by W5)."""
+    import pgradd.ThermoChem    # noqa
+    from pgradd.GroupAdd.Library import GroupLibrary
+    d = tempfile.mkdtemp(prefix='pgv_c20_')
+    with open(os.path.join(d, 'scheme.yaml'), 'w') as f:
+        f.write(SCHEME)
+    with open(os.path.join(d, 'library.yaml'), 'w') as f:
+        f.write(text)
+    try:
+        return GroupLibrary.Load(os.path.join(d, 'library.yaml'))
+    finally:
+        import shutil
+        shutil.rmtree(d, ignore_errors=True)
+
+
+def fresh_lib(name):
+    """A library object of its own (never the cached one): for the families
+    that change the library's uncertainty data in place."""
+    if name in SYN:
+        return _write_and_load(SYN[name]['basis'], SYN[name]['mat'])
+    assert name in libs.UQ_LIBS, name
+    return libs.load(name)
+
+
 def load(name):
     """-> (library, basis names, matrix rows) - basis/matrix read by me."""
     if name in _L:
@@ -201,6 +288,9 @@ def load(name):
     elif name.startswith('synx:'):
         basis, mat, place = W.spec(name)
         lib = _write_and_load(basis, mat, place)
+    elif name.startswith('synr:'):
+        text, basis, mat = W5.range_lib_text(name)
+        lib = _write_and_load_text(text)
     elif name == 'synplain':
         basis, mat = [], []
         lib = _write_and_load(None, None)
@@ -231,6 +321,8 @@ GETTERS = [('get_CpoR_SE', 'get_CpoR'), ('get_HoRT_SE', 'get_HoRT'),
 
 
 def expected(lib, basis, mat, items, T, rm_getter):
+    # (`lib` is the library object whose RMSE correlation counts: the cached
+    # one, or - fifth wave - the private one of a history)
     x = [0.0] * len(basis)
     for g, c in items:
         x[basis.index(g)] = c
@@ -258,10 +350,12 @@ def check(R, name, items, tag):
 TEMPS = (298.15, 500.0, 1000.0)
 
 
-def observe(R, name, e, items, tag, wit, prefix='se-wrong', temps=TEMPS):
+def observe(R, name, e, items, tag, wit, prefix='se-wrong', temps=TEMPS,
+            lib=None):
     """The three getters x temperature grid of estimate `e` against the
     quadratic form of `items`."""
-    lib, basis, mat = load(name)
+    lib0, basis, mat = load(name)
+    lib = lib0 if lib is None else lib
     vals = []
     for T in temps:
         for se, rmg in GETTERS:
@@ -337,6 +431,35 @@ def check_outside(R, name, items):
                             'outside the uncertainty basis but a standard error '
                             'was returned' % (name, its, o),
                             dict(kind='out', lib=name, items=[list(i) for i in its]))
+            # fifth wave: the out-of-basis descriptor's COUNT over the value
+            # alphabet (the loop above is its first letter, the count 1)
+            for tok in W5.COUNT_TOKENS[1:]:
+                check_outside_count(R, name, items, o, pos, tok)
+
+
+def check_outside_count(R, name, items, o, pos, tok):
+    """One out-of-basis descriptor `o` with the count spelled by `tok` at
+    position `pos` of the mapping: an error, whatever the count - zero
+    included."""
+    lib, basis, mat = load(name)
+    its = list(items[:pos]) + [(o, W5.decode(tok))] + list(items[pos:])
+    R.evals += 1
+    R.nontrivial += 1
+    r = E.ev(lib.Estimate, dict(its), 'thermochem')
+    ok = r[0] == 'exc'
+    if not ok:
+        g = [E.ev(getattr(r[1], se), 500.0) for se, _ in GETTERS]
+        ok = all(x[0] == 'exc' for x in g)
+    cls = W5.count_class(tok)
+    R.outcomes['out-of-basis(count %s):%s' % (cls, 'error' if ok else 'ignored')] += 1
+    if not ok:
+        R.violation('out-of-basis-ignored:count-' + cls,
+                    '[%s] %r + %r with count %s at position %d: the descriptor '
+                    'is outside the uncertainty basis but a standard error was '
+                    'returned' % (name, items, o, tok, pos),
+                    dict(kind='outc', lib=name, items=[list(i) for i in items],
+                         o=o, pos=pos, tok=tok))
+    return ok
 
 
 def families(name):
@@ -676,6 +799,241 @@ def run_histories_isolated(R, i, n, tier):
     R.notes.extend(pack['notes'][:3])
 
 
+# ------------------------------------------------------------ fifth wave
+
+def check_zero_entry(R, name, items, g, pos, tok):
+    """An IN-basis descriptor `g` listed with a zero count (spelled by `tok`)
+    at position `pos`: the standard errors are those of `items`."""
+    wit = dict(kind='zeros', lib=name, items=[list(i) for i in items], g=g,
+               pos=pos, tok=tok)
+    lib, basis, mat = load(name)
+    its = list(items[:pos]) + [(g, W5.decode(tok))] + list(items[pos:])
+    R.nontrivial += 1
+    R.evals += 1
+    r = E.ev(lib.Estimate, dict(its), 'thermochem')
+    if r[0] != 'ok':
+        R.outcomes['estimate-raises:' + r[1]] += 1
+        R.violation('estimate-raises:%s:zero-entry' % r[1], '[%s] %r + (%r, %s) '
+                    'at position %d: Estimate raised %s' % (
+                        name, items, g, tok, pos, r[1]), wit)
+        return
+    observe(R, name, r[1], items, 'zero-entry', wit, temps=HB_T)
+
+
+def run_zeros(R, name):
+    lib, basis, mat = load(name)
+    sub = basis[:MUT_SUB + 1]
+    for items in mut_bases(name):
+        spare = [g for g in sub if g not in [k for k, _ in items]]
+        if not spare:
+            continue
+        for tok in W5.ZERO_TOKENS:
+            for pos in sorted(set((0, len(items)))):
+                check_zero_entry(R, name, items, spare[0], pos, tok)
+    R.sample(dict(library=name, mapping=[list(i) for i in items],
+                  zero_spellings=W5.ZERO_TOKENS), limit=1)
+
+
+def check_range_lib(R, name, only=None):
+    """A library file whose group ranges and RMSE range are letters of W5:
+    wherever the library's RMSE correlation gives a value, the standard error
+    is |that value| sqrt(x'Mx) - inside or outside the estimate's own range."""
+    lib, basis, mat = load(name)
+    rm = lib.uq_contents['RMSE'].thermochem
+    rmv = {}
+    for T in W5.RANGE_TEMPS:
+        for se, rmg in GETTERS:
+            rmv[T, rmg] = E.ev(getattr(rm, rmg), T)
+            R.evals += 1
+    for items in W5.range_mappings(basis):
+        if only is not None and [list(i) for i in items] != only:
+            continue
+        wit = dict(kind='range', lib=name, items=[list(i) for i in items])
+        R.nontrivial += 1
+        R.evals += 1
+        r = E.ev(lib.Estimate, dict(items), 'thermochem')
+        if r[0] != 'ok':
+            R.outcomes['estimate-raises:' + r[1]] += 1
+            R.violation('estimate-raises:%s:range-family' % r[1], '[%s] %r: '
+                        'Estimate raised %s' % (name, items, r[1]), wit)
+            continue
+        x = [0.0] * len(basis)
+        for g, c in items:
+            x[basis.index(g)] = c
+        q = tr.quad_form(x, mat)
+        er = E.ev(r[1].get_range)
+        er = er[1] if er[0] == 'ok' else None
+        for T in W5.RANGE_TEMPS:
+            inside = er is None or (er[0] <= T <= er[1])
+            where = 'inside' if inside else 'outside'
+            for se, rmg in GETTERS:
+                ref = rmv[T, rmg]
+                got = E.ev(getattr(r[1], se), T)
+                R.evals += 1
+                if ref[0] != 'ok':
+                    R.outcomes['rmse-has-no-value:se-%s' % (
+                        'raises' if got[0] == 'exc' else 'returns')] += 1
+                    continue
+                want = abs(float(ref[1])) * math.sqrt(max(q, 0.0))
+                if got[0] != 'ok':
+                    R.outcomes['se-raises:' + got[1]] += 1
+                    R.violation('se-raises:%s:%s-estimate-range' % (got[1], where),
+                                '[%s] %r: %s(%g) raised %s; the RMSE correlation '
+                                'gives %r there, the estimate\'s own range is %r'
+                                % (name, items, se, T, got[1], ref[1], er), wit)
+                    continue
+                v = got[1]
+                if type(v) is not float or not (v >= 0) or \
+                        not abs(v - want) <= 1e-9 * max(1.0, want):
+                    R.outcomes['se-wrong'] += 1
+                    R.violation('se-wrong:%s:%s-estimate-range' % (se, where),
+                                '[%s] %r: %s(%g) = %r (%s), |RMSE| sqrt(x\'Mx) = '
+                                '%r (x\'Mx = %r); estimate\'s own range %r' % (
+                                    name, items, se, T, v, type(v).__name__,
+                                    want, q, er), wit)
+                else:
+                    R.outcomes['se-ok:%s-estimate-range' % where] += 1
+
+
+def setrange_cases(name, tier):
+    """(items, history of set_range letters, moment)"""
+    bases = mut_bases(name)
+    # a unit, a pair, a triple (syn2 has no triple)
+    few = [bases[0]] + [b for b in bases if len(b) == 2][:1]
+    few += [b for b in bases if len(b) == 3][-1:]
+    for hist in W5.set_range_histories(2 if tier == 'quick' else 3):
+        for items in (bases if len(hist) == 1 else
+                      few[-1:] if tier == 'quick' else few):
+            for moment in W5.MOMENTS:
+                yield items, hist, moment
+
+
+def check_setrange(R, name, items, hist, moment):
+    """set_range() on the ESTIMATE: its validity range is its own business;
+    the standard errors stay |RMSE(T)| sqrt(x'Mx) after every step."""
+    lib, basis, mat = load(name)
+    wit = dict(kind='setrange', lib=name, items=[list(i) for i in items],
+               hist=list(hist), moment=moment)
+    R.nontrivial += 1
+    R.evals += 1
+    r = E.ev(lib.Estimate, dict(items), 'thermochem')
+    if r[0] != 'ok':
+        R.outcomes['estimate-raises:' + r[1]] += 1
+        R.violation('estimate-raises:' + r[1], '[%s] %r: Estimate raised %s' % (
+            name, items, r[1]), wit)
+        return
+    e = r[1]
+    if moment == 'after-first-SE':
+        observe(R, name, e, items, 'before-set_range', wit)
+    for n, k in enumerate(hist):
+        rng = W5.SET_RANGES[k]
+        s = E.ev(e.set_range, None if rng is None else tuple(rng))
+        R.evals += 1
+        R.outcomes['estimate.set_range:' + (s[1] if s[0] == 'exc' else 'ok')] += 1
+        observe(R, name, e, items, 'after-set_range/%s' % moment, wit,
+                prefix='se-follows-estimate-range')
+
+
+def rmse_mappings(name):
+    lib, basis, mat = load(name)
+    if len(basis) < 3:
+        return [[(basis[0], 0.217)], [(basis[1], 2), (basis[0], -1)]]
+    return [[(basis[0], 0.217)], [(basis[0], 1), (basis[1], 2), (basis[2], -0.5)]]
+
+
+def run_rmse_history(R, name, hist):
+    """A library object of its own; two estimates made first; then the
+    history: ['obs', T] = the three getters of both estimates at T, ['mut', p]
+    = the library's RMSE correlation updated IN PLACE with piece p.  At the
+    end both estimates, and two made now, over the temperature grid (+ the
+    RMSE correlation's T_ref) against the library's RMSE correlation AS IT IS
+    NOW; at T_ref also against the H / S value the last accepted piece
+    brought (the harness's own number)."""
+    import pgradd.ThermoChem    # noqa
+    from pgradd.ThermoChem import ThermochemGroup
+    wit = dict(kind='rmse', lib=name, hist=[list(o) for o in hist])
+    lib = fresh_lib(name)
+    R.evals += 1
+    _, basis, mat = load(name)
+    rm = lib.uq_contents['RMSE'].thermochem
+    T_ref = float(rm.T_ref)
+    ests = []
+    for items in rmse_mappings(name):
+        r = E.ev(lib.Estimate, dict(items), 'thermochem')
+        R.evals += 1
+        if r[0] != 'ok':
+            R.violation('estimate-raises:' + r[1], '[%s] %r: Estimate raised %s'
+                        % (name, items, r[1]), wit)
+            return
+        ests.append((items, r[1]))
+    known = dict(ND_H_ref=None, ND_S_ref=None)
+    changed = False
+    for n, op in enumerate(hist):
+        R.nontrivial += 1
+        tag = 'rmse-history/step-%d-of-%d' % (n + 1, len(hist))
+        if op[0] == 'obs':
+            for items, e in ests:
+                observe(R, name, e, items, 'rmse-history/obs', wit,
+                        prefix='se-not-current-rmse', temps=(op[1],), lib=lib)
+            continue
+        kw, overwrite, tref = W5.PIECES[op[1]]
+        before = [E.ev(getattr(rm, g), 500.0)[:2] for _, g in GETTERS]
+        piece = ThermochemGroup(T_ref=T_ref if tref == 'own' else tref,
+                                **dict(kw))
+        u = E.ev(rm.update, piece, overwrite=overwrite)
+        R.evals += 1
+        after = [E.ev(getattr(rm, g), 500.0)[:2] for _, g in GETTERS]
+        R.outcomes['rmse.update(%s):%s:%s' % (
+            op[1], u[1] if u[0] == 'exc' else 'ok',
+            'changed' if before != after else 'unchanged')] += 1
+        changed = changed or before != after
+        if u[0] == 'ok':
+            for k in known:
+                if k in kw:
+                    known[k] = kw[k]
+    temps = TEMPS if T_ref in TEMPS else TEMPS + (T_ref,)
+    late = []
+    for items, _ in ests:
+        r = E.ev(lib.Estimate, dict(items), 'thermochem')
+        R.evals += 1
+        if r[0] != 'ok':
+            R.violation('estimate-raises:' + r[1], '[%s] %r (after the history): '
+                        'Estimate raised %s' % (name, items, r[1]), wit)
+            continue
+        late.append((items, r[1]))
+    for who, group in (('made-before', ests), ('made-after', late)):
+        for items, e in group:
+            R.nontrivial += 1
+            observe(R, name, e, items, 'rmse-history/end/' + who, wit,
+                    prefix='se-not-current-rmse', temps=temps, lib=lib)
+            x = [0.0] * len(basis)
+            for g, c in items:
+                x[basis.index(g)] = c
+            root = math.sqrt(max(tr.quad_form(x, mat), 0.0))
+            for se, k in (('get_HoRT_SE', 'ND_H_ref'), ('get_SoR_SE', 'ND_S_ref')):
+                if known[k] is None:
+                    continue
+                want = abs(known[k]) * root
+                got = E.ev(getattr(e, se), T_ref)
+                R.evals += 1
+                if got[0] != 'ok':
+                    continue        # judged by observe() above
+                v = got[1]
+                if type(v) is not float or not abs(v - want) <= 1e-9 * max(1.0, want):
+                    R.outcomes['se-not-the-value-brought-by-update'] += 1
+                    R.violation('se-not-the-value-brought-by-update:%s:%s' % (se, who),
+                                '[%s] %r after %r: %s(T_ref = %g) = %r, but the '
+                                'last accepted update() set %s = %r, |.| sqrt(x\'Mx)'
+                                ' = %r' % (name, items, hist, se, T_ref, v, k,
+                                           known[k], want), wit)
+                else:
+                    R.outcomes['se-is-the-value-brought-by-update'] += 1
+    return changed
+
+
+RANGE_SHARDS = {'quick': 6, 'thorough': 24}
+RMSE_SHARDS = {'syn3': {'quick': 4, 'thorough': 8}}
+
 MUT_SHARDS = {n: 2 for n in libs.UQ_LIBS}
 SYNX_FACTOR_SHARDS = 6
 HIST_SHARDS = {'quick': 2, 'thorough': 12}
@@ -702,6 +1060,16 @@ def shards(tier, seed):
     # fourth wave: histories of libraries built by hand
     for i in range(HIST_SHARDS[tier]):
         out.append(('*', i, HIST_SHARDS[tier], 'history'))
+    # fifth wave: zero entries; ranges (library files, set_range on the
+    # estimate); RMSE correlation updated in place
+    for name in libs.UQ_LIBS + list(SYN):
+        out.append((name, 0, 1, 'zeros'))
+        out.append((name, 0, 1, 'setrange'))
+        n = RMSE_SHARDS.get(name, {}).get(tier, 1)
+        for i in range(n):
+            out.append((name, i, n, 'rmse'))
+    for i in range(RANGE_SHARDS[tier]):
+        out.append(('synr', i, RANGE_SHARDS[tier], 'range'))
     return out
 
 
@@ -713,6 +1081,31 @@ def run_shard(shard, tier):
         return R
     if len(shard) == 4 and shard[3] == 'history':
         run_histories_isolated(R, shard[1], shard[2], tier)
+        return R
+    if len(shard) == 4 and shard[3] == 'zeros':
+        run_zeros(R, shard[0])
+        return R
+    if len(shard) == 4 and shard[3] == 'setrange':
+        name = shard[0]
+        for items, hist, moment in setrange_cases(name, tier):
+            check_setrange(R, name, items, hist, moment)
+        R.sample(dict(library=name, set_range_arguments=W5.SET_RANGES), limit=1)
+        return R
+    if len(shard) == 4 and shard[3] == 'rmse':
+        name, i, n, _ = shard
+        for k, h in enumerate(W5.rmse_histories(name, tier)):
+            if k % n == i:
+                run_rmse_history(R, name, h)
+                if k < 2:
+                    R.sample(dict(library=name, rmse_history=h), limit=2)
+        return R
+    if len(shard) == 4 and shard[3] == 'range':
+        name, i, n, _ = shard
+        for nm in W5.range_lib_names(tier)[i::n]:
+            check_range_lib(R, nm)
+            _L.pop(nm, None)        # walked once; do not keep 100s of libraries
+        R.sample(dict(library_file=W5.range_lib_text(
+            W5.range_lib_names(tier)[i])[0]), limit=1)
         return R
     if len(shard) == 4:
         name, i, n, _ = shard
@@ -750,7 +1143,22 @@ def replay(w):
             run_history(Result(), [tuple(s) for s in w['earlier']])
         run_history(R, [tuple(s) for s in w['history']], earlier=w.get('earlier'))
         return _verdict(R)
+    if w['kind'] == 'rmse':
+        run_rmse_history(R, w['lib'], w['hist'])
+        return _verdict(R)
     items = [tuple(i) for i in w['items']]
+    if w['kind'] == 'outc':
+        ok = check_outside_count(R, w['lib'], items, w['o'], w['pos'], w['tok'])
+        return dict(violates=not ok, detail=_verdict(R)['detail'])
+    if w['kind'] == 'zeros':
+        check_zero_entry(R, w['lib'], items, w['g'], w['pos'], w['tok'])
+        return _verdict(R)
+    if w['kind'] == 'range':
+        check_range_lib(R, w['lib'], only=[list(i) for i in items])
+        return _verdict(R)
+    if w['kind'] == 'setrange':
+        check_setrange(R, w['lib'], items, w['hist'], w['moment'])
+        return _verdict(R)
     if w['kind'] == 'factor':
         check_factor(R, w['lib'], items, w['k'])
         return _verdict(R)
